@@ -328,7 +328,14 @@ func (w *trWorld) query(name, kind string) {
 			}
 			// the harness hold point between the phases: the index has been read, the core is not yet pinned
 			sched.Yield(name + ":between-phases")
-			err = q.Phase2()
+			switch kind {
+			case "S":
+				q.Phase2Stream(-1)
+			case "X":
+				q.Phase2Stream(0)
+			default:
+				err = q.Phase2()
+			}
 		}
 	}()
 	if err != nil {
@@ -369,9 +376,26 @@ func (w *trWorld) query(name, kind string) {
 		if kind == "F" {
 			gotOrder, got, err = q.PullVectorized()
 		} else {
+			if kind == "X" {
+				// the client holds the failed result for a while before it releases it
+				q.BeforeRelease = func() { sched.Yield(name + ":failed-unreleased") }
+			}
 			gotOrder, got, err = q.PullDefault()
 		}
 	}()
+	if kind == "X" {
+		// the injected fault (no block-scan quota) is the one legitimate way for this query to end: with exactly that
+		// error and without a single trace; what it pinned is judged by the other threads' holds and at quiescence
+		switch {
+		case err == nil:
+			w.bad(name + ": the block scan of the query failed, yet the query reported success (a silently partial view)")
+		case !strings.Contains(err.Error(), "block scan quota exceeded"):
+			w.bad(fmt.Sprintf("%s: query whose block scan ran out of quota failed with another error: %v", name, firstLine(err.Error())))
+		case len(gotOrder) != 0:
+			w.bad(name + ": query whose block scan failed returned traces")
+		}
+		return
+	}
 	if err != nil {
 		w.bad(fmt.Sprintf("%s: reading the pinned view failed: %v", name, firstLine(err.Error())))
 		return
@@ -425,12 +449,16 @@ func (w *trWorld) validateCut(st *trState) {
 	}
 	order, got, err := w.t.QueryPipeline()
 	check("unmodified pipeline of the default arm", order, got, err)
-	for _, kind := range []string{"U", "F"} {
+	for _, kind := range []string{"U", "F", "S"} {
 		q := w.t.NewQuery()
 		if kind == "F" {
 			err = q.Fenced()
 		} else if err = q.Phase1(nil); err == nil {
-			err = q.Phase2()
+			if kind == "S" {
+				q.Phase2Stream(-1)
+			} else {
+				err = q.Phase2()
+			}
 		}
 		if err != nil {
 			q.Abort()
@@ -595,6 +623,10 @@ func (w *trWorld) build(sc scenario) []func() {
 		switch {
 		case r == "qU":
 			threads = append(threads, func() { w.query(name+"-unfenced", "U") })
+		case r == "qS":
+			threads = append(threads, func() { w.query(name+"-stream", "S") })
+		case r == "qX":
+			threads = append(threads, func() { w.query(name+"-scanfault", "X") })
 		case r == "qH":
 			threads = append(threads, func() { w.query(name+"-unfenced", "H") })
 		case r == "qF":
@@ -798,6 +830,12 @@ func init() {
 		{Name: "trace-sync-F", Roles: []string{"qF", "I:sync"}},
 		{Name: "trace-abandon", Roles: []string{"qU", "I:abandon,add"}},
 		{Name: "trace-close", Roles: []string{"qU", "qF", "close"}},
+		// round 2: the scan batch in the form the block-scan stage of the streaming pipeline produces (snapshots +
+		// cursor channel), fault-free and with the block scan failing (no quota); the failed result is held, then
+		// released, while a merge replaces the snapshot and another reader pins it
+		{Name: "trace-stream-merge", Roles: []string{"qS", "I:merge"}},
+		{Name: "trace-scanfault", Roles: []string{"qX", "I:merge", "qU"}},
+		{Name: "trace-scanfault-close", Roles: []string{"qX", "close"}},
 		{Name: "trace-all-F", Roles: []string{"qF", "I:add,flush,merge"}, ThoroughOnly: true},
 	}})
 }
